@@ -27,6 +27,7 @@ PROP = dict(
         "MM.C22.C22_refuted",
         "MM.C22.C22_partial",
         "MM.C22.C22_tcp",
+        "MM.C22.C22_port_refuted",
     ],
     spec=True,
     timeout=1800,
@@ -43,7 +44,7 @@ PROP = dict(
         "two source facts (wsConn.RemoteAddr is nil; handleUDPAssociate's declared-address rule) checked by regular expression on every run",
     ],
     assumptions=[
-        "ownership is by IP address (the statement's 'client' = host): another process on the owner's host is indistinguishable",
+        "the theorems are about ownership by IP address (RFC 1928); the endpoint-level reading (IP and port, once the first datagram or the request fixed the port) is judged by the spec on every run and fails: open finding C22-same-host-other-port, C22_port_refuted",
         "source addresses are as the kernel reports them (no spoofing on the path to the relay socket)",
     ],
     manifest=dict(
